@@ -172,7 +172,10 @@ impl Prop for PtProp {
     }
     fn rule(&self, tier: Tier) -> String {
         let (d, l, k) = self.bounds(tier);
-        let consist_part = if self.which == "C01" || self.which == "C09" { format!(" PLUS consists: {}", super::consist_lab::rule(self.which, tier)) } else { String::new() };
+        let mut consist_part = if self.which == "C01" || self.which == "C09" { format!(" PLUS consists: {}", super::consist_lab::rule(self.which, tier)) } else { String::new() };
+        if self.which == "C09" {
+            consist_part.push_str(&format!(" PLUS {}", super::res_lab::rule(tier)));
+        }
         format!(
             "E-SEQ on real Locomotive objects driven like LocomotiveSimulation::solve_step: alphabet = {} letters (14 demands relative to the limits just published: {:?}; dt in {:?} (20 s for C01 only){}), every sequence of length <= {} (FULL), every sequence of length {} departing from the default letter (0.6M, dt=1, engine on) in <= 1 position (DEV(L,1)) on every powertrain configuration of the {} PT family (conventional + battery-electric; C08 also hybrid units), and every sequence of length {} with <= 2 departures (DEV(L,2)) on the star-design configurations; C01 and C08 repeat FULL and DEV(L,1) on the star-design configurations with the public option assert_limits = false. Oracle on every accepted step (= every prefix of every history). distinct_nontrivial = number of distinct behaviour signatures (unit type x traction/regen/dyn-brake/zero x which transient bound is active x which limit binds x engine command x dt, and rejected-letter x error kind).{}",
             letters_for(self.which).len(),
@@ -249,11 +252,17 @@ impl Prop for PtProp {
         if self.which == "C01" || self.which == "C09" {
             super::consist_lab::explore(ctx, self.which);
         }
+        if self.which == "C09" {
+            super::res_lab::explore(ctx);
+        }
         ctx.finish();
     }
     fn replay(&self, case: &Value) -> ReplayOutcome {
         if case.get("units").is_some() {
             return super::consist_lab::replay(self.which, case);
+        }
+        if case.get("res_lab").is_some() {
+            return super::res_lab::replay(case);
         }
         let c: LocoCase = match serde_json::from_value(case.clone()) {
             Ok(c) => c,
